@@ -120,7 +120,7 @@ def quad_energy(M, j, x):
     return 0.5 * _vdot(x, Mx) - _vdot(j, x)
 
 
-def run_static(B, M, j, x0, kw):
+def run_static(B, M, j, x0, kw, fork=False):
     cgm = __import__("nifty.re.conjugate_gradient", fromlist=["x"])
     mk = {k: v for k, v in kw.items() if shims_cl.is_sym(v)}
     ck = {k: v for k, v in kw.items() if not shims_cl.is_sym(v)}
@@ -132,8 +132,8 @@ def run_static(B, M, j, x0, kw):
         def f0(M, j, mk):
             res = cgm._static_cg(lambda v: M @ v, j, None, **ck, **mk)
             return res.x, res.info, res.nit
-        return jcall(B, f0, M, j, mk, while_bound=int(kw.get("maxiter", 3)) + 1)
-    return jcall(B, f, M, j, x0, mk, while_bound=int(kw.get("maxiter", 3)) + 1)
+        return jcall(B, f0, M, j, mk, while_bound=int(kw.get("maxiter", 3)) + 1, fork=fork)
+    return jcall(B, f, M, j, x0, mk, while_bound=int(kw.get("maxiter", 3)) + 1, fork=fork)
 
 
 def run_eager(B, M, j, x0, kw):
@@ -148,7 +148,7 @@ def run_eager(B, M, j, x0, kw):
     return res.x, res.info, res.nit
 
 
-def h_pd(B, n, kind, crit, miniter, maxiter, with_x0):
+def h_pd(B, n, kind, crit, miniter, maxiter, with_x0, fork=False):
     """positive definite systems: convergence verdicts are honest, eager == compiled"""
     M = make_system(B, n, kind)
     j = B.reals("j", (n,))
@@ -169,7 +169,7 @@ def h_pd(B, n, kind, crit, miniter, maxiter, with_x0):
         thr = kw["atol"]
     xe, ie, ne = run_eager(B, M, j, x0, kw)
     B.note(f"eager info={ie} nit={ne}")
-    xs, is_, ns = run_static(B, M, j, x0, kw)
+    xs, is_, ns = run_static(B, M, j, x0, kw, fork=fork)
     B.eq("compiled solution == eager solution (on this eager path)", _flat(xs), _flat(xe))
     B.eq("compiled info == eager info", _flat(is_), [ie])
     B.eq("compiled nit == eager nit", _flat(ns), [ne])
@@ -247,6 +247,7 @@ def scenarios(tier, seed):
         quick.append(("pd", {"n": 1, "kind": "diag_pd", "crit": crit, "miniter": 0, "maxiter": 2, "with_x0": True}))
         if crit == "resnorm":     # a start vector in dimension 2 (the energy bookkeeping of the start point matters)
             thorough.append(("pd", {"n": 2, "kind": "diag_fixed", "crit": crit, "miniter": 0, "maxiter": 1, "with_x0": True}))
+            thorough.append(("pd", {"n": 2, "kind": "diag_fixed", "crit": crit, "miniter": 0, "maxiter": 2, "with_x0": True, "fork": True}))
         thorough.append(("pd", {"n": 2, "kind": "diag_pd", "crit": crit, "miniter": 0, "maxiter": 3, "with_x0": False}))
         thorough.append(("pd", {"n": 2, "kind": "diag_pd", "crit": crit, "miniter": 2, "maxiter": 2, "with_x0": False}))
         thorough.append(("pd", {"n": 2, "kind": "diag_pd", "crit": crit, "miniter": 0, "maxiter": 2, "with_x0": True}))
@@ -277,7 +278,7 @@ META = {
                    "E(x_returned) < E(x_start) with a step along steepest descent, for both variants; with _raise_nonposdef=True the "
                    "eager solver raises and the compiled one reports -1.",
     "functions_encoded": ["nifty.re.conjugate_gradient.{_cg,_static_cg}"],
-    "bounds": {"dimension": "1-2", "maxiter": "1-2 (3 thorough)", "miniter": "0-2", "criteria": "resnorm, absdelta, tol/atol"},
+    "bounds": {"dimension": "1-2", "maxiter": "1-2 (3 thorough); one thorough scenario interprets the compiled solver in fork mode (n = 2, fixed diagonal, start vector, maxiter 2)", "miniter": "0-2", "criteria": "resnorm, absdelta, tol/atol"},
     "stubs": ["eager: nifty.re.conjugate_gradient.{vdot,jft_norm,zeros_like,size,result_type,jnp,float} replaced in the module namespace by "
               "object-array versions with the obvious contracts (their real implementations are the subject of C33)", "jaxpr interpreter"],
     "outside": ["N_RESET residual recomputation (every 20 iterations)", "time_threshold", "pretty printing", "dimension > 2"],
